@@ -406,6 +406,9 @@ def history_cases(draw, tier):
 RULE_ROUND8 = " One generated forest in 20 (60 in the thorough tier) is a BIG one (gen.big_specs: a child list of 11..300 nodes, that many clones of one data object, more than 256 nodes), with node references aimed at notable positions of the long child lists. Names contain the path separators in use ('x/y', 'p|q', 'a > b', '/'); a third of the random cases use Tree(factory=<Node subclass with its own name>)."
 RULE = RULE + RULE_ROUND8
 
+RULE_ROUND9 = ' Enumerated narrow-and-deep shapes (a chain of 2..13 (thorough: 39) nodes next to / below shallow leaves); a third of the random cases build a twin tree from the same spec with the same explicit node_ids: nodes of different trees are unrelated (common ancestor None, no ancestor / descendant relation); get_toplevel_nodes() must be a list.'
+RULE = RULE + RULE_ROUND9
+
 PARTS = [
     Part("after-history", run_after_history, strategy=history_cases, n={"quick": 800, "thorough": 40000}),
     Part("exhaustive", run, enum=enum_cases),
